@@ -219,7 +219,15 @@ def join_states(states):
                 for s, a in zip(states, atoms):
                     iv = s.iv(a) if iv is None else I.join(iv, s.iv(a))
                 na = out.new(iv)
-                jo = join_obj([s.obj.get(a) for s, a in zip(states, atoms)])
+                objs_ = [s.obj.get(a) for s, a in zip(states, atoms)]
+                jo = join_obj(objs_)
+                if jo is None and all(o is not None and o[0] in ('tuple', 'seq') for o in objs_):
+                    # sequences of differing length / content: one atom for the hull of all their elements
+                    eiv = None
+                    for s, o in zip(states, objs_):
+                        for x in (o[1] if o[0] == 'tuple' else (o[1],)):
+                            eiv = s.iv(x) if eiv is None else I.join(eiv, s.iv(x))
+                    jo = ('seq', out.new(eiv if eiv is not None else I.BOTTOM))
                 if jo is not None:
                     out.obj[na] = jo
                 # facts common to all states between this var and shared atoms
@@ -412,6 +420,8 @@ class Analyser:
                 k = int(iv.lo)
                 if -len(o[1]) <= k < len(o[1]):
                     out.append((s, o[1][k])); continue
+            if o and o[0] == 'seq':
+                out.append((s, s.new(s.iv(o[1])))); continue          # any element of a homogeneous sequence
             out.append((s, s.new(FULLTOP)))
         return out
 
@@ -566,7 +576,10 @@ class Analyser:
     def ev_BinOp(self, st, node):
         out = []
         for (s, (a, b)) in self.ev_seq(st, [node.left, node.right]):
-            out.append((s, self.binop(s, node.op, a, b, node)))
+            r = self.binop(s, node.op, a, b, node)
+            if isinstance(node.op, (ast.Div, ast.FloorDiv, ast.Mod)) and s.iv(r).is_bottom() and not s.iv(a).is_bottom() and not s.iv(b).is_bottom():
+                continue        # the divisor is exactly zero: every execution raises here (recorded as a sink), none continues
+            out.append((s, r))
         return out
 
     # ---- calls
@@ -990,6 +1003,11 @@ class Analyser:
                 if isinstance(op, (ast.Is, ast.IsNot)) and (isnone_a or isnone_b):
                     other = ob if isnone_a else oa
                     eq = True if (isnone_a and isnone_b) else (False if other and other[0] != 'none' else None)
+                    if eq is None and other is None:
+                        # an atom whose interval has been narrowed went through arithmetic / an ordering test: it is a number, not None
+                        oiv = s.iv(b if isnone_a else a)
+                        if not oiv.nan or oiv.lo > -I.INF or oiv.hi < I.INF:
+                            eq = False
                     want = truth if isinstance(op, ast.Is) else (not truth)
                     if eq is None or eq == want:
                         return [s]
@@ -1324,6 +1342,9 @@ class Analyser:
         st = State()
         atoms = {}
         for f, (iv, obj) in inv['fields'].items():
+            if obj is not None and obj[0] == 'seqiv':
+                # a list / tuple field: one atom stands for every element
+                obj = ('seq', st.new(obj[1] if obj[1] is not None else I.BOTTOM))      # None: the sequence is always empty, a read cannot happen
             a = st.new(iv, obj=obj)
             st.fld[f] = a
             atoms[f] = a
@@ -1338,13 +1359,23 @@ class Analyser:
             names |= set(s.fld)
         for f in names:
             iv = None; obj = 'unset'
+            seq_iv, all_seq = None, True
             for s in states:
                 if f not in s.fld:
                     continue
                 a = s.fld[f]
                 iv = s.iv(a) if iv is None else I.join(iv, s.iv(a))
                 o = s.obj.get(a)
+                if o is not None and o[0] in ('tuple', 'seq'):
+                    for x in (o[1] if o[0] == 'tuple' else (o[1],)):
+                        seq_iv = s.iv(x) if seq_iv is None else I.join(seq_iv, s.iv(x))
+                else:
+                    all_seq = False
                 obj = o if obj == 'unset' else join_obj([o, obj])
+            if obj is None and all_seq:
+                obj = ('seqiv', seq_iv)          # sequences of differing length / content: the hull of their elements
+            elif obj not in ('unset', None) and obj[0] in ('tuple', 'seq'):
+                obj = ('seqiv', seq_iv)          # atoms are per state; the invariant keeps the element hull
             fields[f] = (iv, obj if obj != 'unset' else None)
         facts = None
         for s in states:
@@ -1395,6 +1426,13 @@ class Analyser:
                             changed = True
                             if rnd >= 2:
                                 j = I.widen(oiv, j)
+                        if obj is not None and oobj is not None and obj[0] == 'seqiv' and oobj[0] == 'seqiv' and obj != oobj:
+                            e_ = obj[1] if oobj[1] is None else (oobj[1] if obj[1] is None else I.join(oobj[1], obj[1]))
+                            if e_ != oobj[1]:
+                                changed = True
+                                if rnd >= 2 and oobj[1] is not None:
+                                    e_ = I.widen(oobj[1], e_)
+                            obj = oobj = ('seqiv', e_)
                         inv['fields'][f] = (j, obj if obj == oobj else None)
                     else:
                         inv['fields'][f] = (iv, obj); changed = True
